@@ -118,7 +118,10 @@ def plan(tier, seed):
         if j[1].startswith("doc:"):
             bydoc.setdefault(j[1], []).append(j)
     for cfg in sorted(bydoc):
-        out.extend(r.sample(bydoc[cfg], 2 if cfg.startswith("doc:values:") else 6))
+        if cfg.startswith("doc:rulepage:"):
+            out.extend(bydoc[cfg])  # the few values the rule pages name: every design
+        else:
+            out.extend(r.sample(bydoc[cfg], 2 if cfg.startswith(("doc:values:", "doc:code:")) else 6))
     out.extend(r.sample([j for j in uni if j[1].startswith("doc:") and not j[0].startswith("gen:")], 12))
     return sorted(out)
 
